@@ -18,9 +18,9 @@ VOCABS = [
     ["(f-1 a b)", "(f_1 ?a ?b)", "(g2-h_3 obj-1)", "(h )"],
     ["(zoom-limit ?a)", "(distance ?c2 ?c1)", "(slow-burn ?a)", "(onboard ?a)"],
 ]
-# pairs whose stripped symbol names coincide (finding D21-collision)
+# pairs whose stripped symbol names coincide (D21, repaired: the symbols now get distinct names); same arity per name
 COLLIDING = [
-    ["(f-x ?a)", "(fx ?a)"], ["(f ab)", "(f a b)"], ["(f a b)", "(f ?a ?b)"], ["(g_1 ?x)", "(g_1 x)"],
+    ["(f-x ?a)", "(fx ?a)"], ["(fa b)", "(f ab)"], ["(f a b)", "(f ?a ?b)"], ["(g_1 ?x)", "(g_1 x)"],
     ["(load-1 ?t)", "(load1 ?t)"],
 ]
 
@@ -91,7 +91,7 @@ def holds(c, rho):
 def coef(rng, kind=None):
     kind = kind or rng.choice(["int", "int", "dec", "dec", "near", "small"])
     if kind == "int":
-        v = rng.choice([1, 2, 3, 4, 5, 7, 10, 12, 25, 100, 8823])
+        v = rng.choice([1, 2, 3, 4, 5, 7, 10, 12, 25, 100, 8823, 1, 2, 3, 5, 0])
         s = str(v)
     elif kind == "dec":
         s = rng.choice(["0.5", "1.5", "2.5", "0.25", "0.1", "0.01", "0.19", "1.25", "3.75", "0.125", "2.675",
